@@ -126,7 +126,7 @@ func psDKG(ids []uint16, t, L int, rng *mrand.Rand, orch string, polIdx int) (ma
 }
 
 func unitC08(e common.Env, p *common.Part) {
-	p.Rule = "PS key generation (directly wired with PRNG delivery order, per-link FIFO or - every sixth configuration - any queued message next; every third configuration through real Loud/Silent schemes) for 2<=t<=n<=5 (thorough 6), party identifier sets 1..n, {1,2,4,..}, {10,20,..} and PRNG 16-bit, message length L=1..4, vectors {all entries empty, all equal, random, one 64 KiB entry}; for EVERY signer subset of size >= t, in PRNG order: TPS.Sign of the blinded request from the stored share, Prover.UnBlind, ProveKnowledgeOfSignature, Verifier.Verify must all succeed, and all parties report identical public material; plus one in-memory request value (ps.Blind) handed to three signers (ps.SignBlindSignature) twice over: all accept, the request's serialisation is unchanged; distinct key = (n, t, L, id set, vector, subset); non-trivial when the proof was built and verified"
+	p.Rule = "PS key generation (directly wired with PRNG delivery order, per-link FIFO or - every sixth configuration - any queued message next; every third configuration through real Loud/Silent schemes) for 2<=t<=n<=5 (thorough 6), party identifier sets 1..n, {1,2,4,..}, {10,20,..} and PRNG 16-bit, message length L=1..4, vectors {all entries empty, all equal, random, one 64 KiB entry}; for EVERY signer subset of size >= t, in PRNG order (every second configuration with one long-lived signer object per party serving all requests, else a fresh one per request): TPS.Sign of the blinded request from the stored share, Prover.UnBlind, ProveKnowledgeOfSignature, Verifier.Verify must all succeed, and all parties report identical public material; plus one in-memory request value (ps.Blind) handed to three signers (ps.SignBlindSignature) twice over: all accept, the request's serialisation is unchanged; distinct key = (n, t, L, id set, vector, subset); non-trivial when the proof was built and verified"
 	type cfg struct {
 		n, t, L int
 		ids     []uint16
@@ -177,6 +177,10 @@ func unitC08(e common.Env, p *common.Part) {
 			vecs = append(vecs[:1], vecs[1+i%3])
 		}
 		proofs := 0
+		// every second configuration: one long-lived signer object per party serves all requests of the configuration
+		if i%2 == 0 {
+			psSignerCache = map[uint16]tss.Signer{}
+		}
 		for vi, vec := range vecs {
 			for _, sub := range subsets(c.ids, c.t) {
 				order := append([]uint16{}, sub...)
@@ -193,6 +197,7 @@ func unitC08(e common.Env, p *common.Part) {
 				break
 			}
 		}
+		psSignerCache = nil
 		p.Count("proofs_verified", int64(proofs))
 		if i%5 == 0 {
 			p.Sample(map[string]interface{}{"n": c.n, "t": c.t, "L": c.L, "ids": c.ids, "wiring": c.orch, "proofs_verified": proofs})
